@@ -354,3 +354,7 @@ package datamodel
 //@ interface LargeBytesNode.AsLargeBytes() (r, err)
 //@   assigns nothing
 //@   ensures err == nil ==> r != nil
+
+// ---- C20: paths, path segments and kinds are values; nothing shared is written (frame sweep) ----
+//@ sweep[C20] assigns nothing: Path, PathSegment, Kind, KindSet, NewPath(), NewPathNocopy(), ParsePath(),
+//@   ParsePathSegment(), PathSegmentOfString(), PathSegmentOfInt()
